@@ -42,6 +42,30 @@ def stream(t):
     return out
 
 
+def payloads(parts, kind):
+    """the chunk payloads as the objects handed to the implementation: bytes (default), a fresh bytearray per
+    chunk, or bytearrays with ONE shared object for all chunks of equal content (all empty chunks; SomeData allows
+    bytearray and nothing says a buffer may occur only once in a stream)"""
+    if kind in (None, "bytes"):
+        return parts
+    shared = {}
+    out = []
+    for part in parts:
+        q = []
+        for d, i in part:
+            if kind == "shared":
+                q.append((shared.setdefault(bytes(d), bytearray(d)), i))
+            else:
+                q.append((bytearray(d), i))
+        out.append(q)
+    return out
+
+
+def modified_inputs(parts, given):
+    """payload objects that no longer hold the bytes they were created with"""
+    return [(i, len(d), len(g)) for part, gpart in zip(parts, given) for (d, i), (g, _) in zip(part, gpart) if bytes(g) != d]
+
+
 class Writer:
     """Recording PartsWriter."""
 
@@ -119,7 +143,8 @@ def run_real(cfg, tree):
     from odc.geo.cog import _mpu as M
 
     w = Writer(cfg)
-    parts = stream(tree)
+    parts0 = stream(tree)
+    parts = payloads(parts0, cfg.get("payload"))
     n = len(parts)
     mpus = list(M.MPUChunk.gen_bunch(cfg["minp"] + 1, n, writes_per_chunk=cfg["wpc"],
                                      mark_final=not cfg["has_footer"], lhs_keep=cfg["minw"]))
@@ -165,7 +190,8 @@ def run_real(cfg, tree):
         res["log"] = list(w.log)
         return res
     res["out"] = {"final": rr, "log": list(w.log),
-                  "obs": [(len(d), i) for part in parts for d, i in part]}
+                  "obs": [(len(d), i) for part in parts0 for d, i in part],
+                  "modified": modified_inputs(parts0, parts)}
     res["seen"] = seen
     return res
 
@@ -185,7 +211,8 @@ def run_dask(cfg, partitions, substreams, scheduler, seed, recompute=False, sink
     t_for_stream = tree_flat[0]
     for x in tree_flat[1:]:
         t_for_stream = [t_for_stream, x]
-    parts = stream(t_for_stream)
+    parts0 = stream(t_for_stream)
+    parts = payloads(parts0, cfg.get("payload"))
     first_id = [p[0][1] for p in parts]
     last_id = [p[-1][1] for p in parts]
     workdir = None
@@ -235,7 +262,8 @@ def run_dask(cfg, partitions, substreams, scheduler, seed, recompute=False, sink
             w.final = None
             rr = fut.compute(**kw)
         res["out"] = {"final": rr, "log": list(w.log),
-                      "obs": [(len(d), i) for part in parts for d, i in part]}
+                      "obs": [(len(d), i) for part in parts0 for d, i in part],
+                      "modified": modified_inputs(parts0, parts)}
         if sink:
             with open(os.path.join(workdir, "out.bin"), "rb") as f:
                 res["out"]["file"] = f.read()
@@ -360,7 +388,7 @@ def rand_cfg(rng, n_leaves, tight=None):
     has_footer = rng.random() < 0.5
     footer = [240 + (i % 7) for i in range(rng.choice([0, 1, minw, 2 * minw]))] if has_footer else []
     return {"minw": minw, "minp": minp, "maxp": maxp, "wpc": wpc, "spill": spill, "hdr": hdr,
-            "has_footer": has_footer, "footer": footer}
+            "has_footer": has_footer, "footer": footer, "payload": rng.choice(["bytes", "bytes", "bytearray", "shared"])}
 
 
 def rand_sizes(rng, minw):
@@ -449,6 +477,10 @@ def run(out, tier, scratch):
     def judge(cfg, tree, r, src, dask_args=None):
         if not in_domain(cfg, tree):
             return
+        if "out" in r and r["out"].get("modified"):
+            # not a clause of the property by itself (a writer may take ownership of a buffer); it is what makes a
+            # buffer that occurs twice in the stream come out wrong, which the byte-stream clause then reports
+            out.count("observed:chunk buffer changed in place")
         for key, detail in clauses(cfg, tree, r):
             out.count("violated:" + key)
             if key not in found:
